@@ -50,6 +50,14 @@ LEEDS_LABELS = ["idx", "reac", "prod", "a", "b", "c", "lt", "ht", "type"]
 LEEDS_WIDTHS = [5, 30, 50, 8, 9, 10, 5, 5, 3]
 LEEDS_ATTR = {"idx": "idxfromfile", "reac": "reactants", "prod": "products", "a": "alpha", "b": "beta", "c": "gamma", "lt": "temp_min", "ht": "temp_max", "type": "rtype"}
 MARKERS = {"CR", "CRP", "PHOTON", "Photon", "CRPHOT"}
+KEEP = ("_create_species",)        # helpers the rules treat as primitives when a parser is read in its folded form
+
+
+def _parser(pkg, cls):
+    """_parse_string of a format class in the form the rules read (pymodel.folded): the private helpers it was split into put back,
+    class-level tables written in place, static loops over literal tables unrolled, table-driven setattr / getattr resolved"""
+    pkg.method(cls, "_parse_string")           # the anchor itself must exist
+    return pkg.folded(cls, "_parse_string", keep=KEEP)
 
 
 def check(ctx):
@@ -200,7 +208,7 @@ def _r1(ctx, pkg):
     # every parser guards against blank input
     n = 0
     for cls in ("Reaction", "KIDAReaction", "UMISTReaction", "LEEDSReaction", "UCLCHEMReaction", "KROMEReaction"):
-        fn = pkg.method(cls, "_parse_string")
+        fn = _parser(pkg, cls)
         file = pkg.cls(cls).file
         ctx.saw(file, f"{cls}._parse_string")
         fl = Flow(fn, file)
@@ -233,7 +241,7 @@ def _r2(ctx, pkg):
     ctx.check(MARKERS <= lst, "R2", "Species.default_pseudoelements:markers", ("naunet/species.py", sp.node.lineno),
               "the database marker tokens CR, CRP, PHOTON, Photon, CRPHOT are pseudo-elements (filtered by _create_species)", expected=str(sorted(MARKERS)),
               found=str(sorted(MARKERS - lst)) + " missing")
-    fn = pkg.method("UCLCHEMReaction", "_parse_string")
+    fn = _parser(pkg, "UCLCHEMReaction")
     fl = Flow(fn, "naunet/reactions/uclchemreaction.py")
     # the keyword list is found by role: it is what the tokens are tested against (`tok not in <list>`) in the comprehensions
     # that create the reactants and the products -- as a filter of its own or as one conjunct of the filter
@@ -291,7 +299,7 @@ def _r2(ctx, pkg):
         ctx.check(ok, "R2", "UCLCHEM:kwlist", ("naunet/reactions/uclchemreaction.py", fn.lineno), "the keyword list is every key of reactant2type plus the filler NAN",
                   found="; ".join(show(simp(k))[:100] for k in lists) or "missing")
     # KROME: reactants/products appended only when _create_species(value) is truthy
-    kfn = pkg.method("KROMEReaction", "_parse_string")
+    kfn = _parser(pkg, "KROMEReaction")
     kfl = Flow(kfn, "naunet/reactions/kromereaction.py")
     # every append whose receiver is self.reactants / self.products -- named directly or through a local that stands for one of the
     # two (`side = self.reactants if key == "r" else self.products`)
@@ -367,7 +375,7 @@ def _destructurings(fn, fl, min_targets=5):
 def _split_formats(ctx, pkg):
     for cls, lay in LAYOUT.items():
         file = pkg.cls(cls).file
-        fn = pkg.method(cls, "_parse_string")
+        fn = _parser(pkg, cls)
         fl = Flow(fn, file)
         n = lay["n"]
         # the destructuring
@@ -437,27 +445,49 @@ def _split_formats(ctx, pkg):
 # ------------------------------------------------------------------ KIDA
 
 def _kida(ctx, pkg):
+    """The KIDA record by the COLUMNS each value is cut from, whatever the way the line is cut (line[:rlen] / line[rlen:rlen+plen] /
+    line[rlen+plen:], or head, tail = line[:90], line[90:] and head[:34] / head[34:], ...): slices of slices are composed and
+    arithmetic on constants folded (_fold_ir), then the constant bounds are compared with the published layout."""
     cls = "KIDAReaction"
     file = pkg.cls(cls).file
-    fn = pkg.method(cls, "_parse_string")
+    fn = _parser(pkg, cls)
     fl = Flow(fn, file)
     line = ("meth", ("param", "react_string"), "strip", (), ())
-    # block widths by role: reactants are split from line[:RL], products from line[RL:RL+PL]
-    rl = pl = None
-    for f in fl.facts:
-        if f.kind == "attrstore" and f.target in ("reactants", "products"):
-            m0 = as_map(simp(f.value))
-            b0 = match(("meth", ("sub", line, ("slice", V("lo"), V("hi"), ("const", None))), "split", (), ()), m0[2]) if m0 else None
-            if b0 and f.target == "reactants" and b0["lo"] == ("const", None) and b0["hi"][0] == "const":
-                rl = b0["hi"][1]
-            if b0 and f.target == "products" and b0["hi"][0] == "binop" and b0["hi"][1] == "Add" and b0["hi"][3][0] == "const":
-                pl = b0["hi"][3][1]
-    if rl is None or pl is None:
-        ctx.unrec("R4", "KIDA:widths", (file, fn.lineno), "cannot see the column blocks the reactants / products are split from (expected line[:RL].split(), line[RL:RL+PL].split())")
-        return
-    ctx.check(rl == 3 * 11 + 1 and pl == 5 * 11 + 1, "R4", "KIDA:widths", (file, fn.lineno),
-              "reactant block = 3 names of 11 columns + 1, product block = 5 names of 11 columns + 1 (as naunet's own KIDA writer lays them out)",
-              expected="rlen = 34, plen = 56", found=f"rlen = {rl}, plen = {pl}")
+    NONE = ("const", None)
+
+    def block(v):
+        """(lo, hi | None) when v is <line>[lo:hi].split() with constant bounds, else None"""
+        b0 = match(("meth", ("sub", line, ("slice", V("lo"), V("hi"), NONE)), "split", (), ()), v)
+        if not b0:
+            return None
+        lo, hi = b0["lo"], b0["hi"]
+        if lo[0] != "const" or hi[0] != "const" or not all(x[1] is None or (isinstance(x[1], int) and x[1] >= 0) for x in (lo, hi)):
+            return None
+        return (lo[1] or 0, hi[1])
+    cols = {}
+    for attr in ("reactants", "products"):
+        st = [f for f in fl.facts if f.kind == "attrstore" and f.target == attr and f.extra.get("obj") == SELF]
+        m = as_map(simp(st[-1].value)) if st else None
+        if not m:
+            ctx.unrec("R4", f"KIDA:{attr}:columns", (file, st[-1].line if st else fn.lineno), f"the {attr} are not built by a comprehension over a slice of the line")
+            continue
+        base = _fold_ir(m[2])
+        blk = block(base)
+        if blk is None or blk[1] is None:
+            ctx.unrec("R4", f"KIDA:{attr}:columns", (file, st[-1].line), f"cannot see the constant column block the {attr} are split from (expected <line>[a:b].split()): {show(base)[:90]}")
+            continue
+        cols[attr] = (blk, st[-1].line, show(base)[:90])
+    if len(cols) == 2:
+        (rlo, rhi), (plo, phi_) = cols["reactants"][0], cols["products"][0]
+        rl, pl = rhi - rlo, phi_ - plo
+        ctx.check(rl == 3 * 11 + 1 and pl == 5 * 11 + 1, "R4", "KIDA:widths", (file, fn.lineno),
+                  "reactant block = 3 names of 11 columns + 1, product block = 5 names of 11 columns + 1 (as naunet's own KIDA writer lays them out)",
+                  expected="rlen = 34, plen = 56", found=f"rlen = {rl}, plen = {pl}")
+        for attr, want in (("reactants", (0, rhi)), ("products", (rhi, rhi + pl))):
+            blk, ln, found = cols[attr]
+            ctx.check(blk == want, "R4", f"KIDA:{attr}:columns", (file, ln),
+                      f"{attr} are the blank-separated names in columns {'1-34' if attr == 'reactants' else '35-90'} (the blocks are contiguous from column 1)",
+                      expected=f"line[{want[0]}:{want[1]}].split()", found=found)
     # the writer
     w = pkg.method("Reaction", "__format__")
     # the writer may live in __format__ itself or in a helper it dispatches to: search the class
@@ -468,27 +498,9 @@ def _kida(ctx, pkg):
     else:
         ctx.check(sorted(n_ for _, n_ in fills) == ["3", "5"], "R4", "KIDA:writer-widths", (R, w.lineno),
                   "the KIDA writer pads 3 reactant and 5 product names to 11 columns each", found=str(fills))
-    RL, PL = ("const", rl), ("const", pl)
-    want = {
-        "reactants": ("slice", ("const", None), RL, ("const", None)),
-        "products": ("slice", RL, ("binop", "Add", RL, PL), ("const", None)),
-    }
-    for attr, sl in want.items():
-        st = [f for f in fl.facts if f.kind == "attrstore" and f.target == attr]
-        ok = False
-        found = ""
-        if st:
-            m = as_map(simp(st[-1].value))
-            if m:
-                base = m[2]
-                found = show(base)[:90]
-                ok = base == ("meth", ("sub", line, sl), "split", (), ())
-        if not found:
-            ctx.unrec("R4", f"KIDA:{attr}:columns", (file, st[-1].line if st else fn.lineno), f"the {attr} are not built by a comprehension over a slice of the line")
-            continue
-        ctx.check(ok, "R4", f"KIDA:{attr}:columns", (file, st[-1].line if st else fn.lineno),
-                  f"{attr} are the blank-separated names in columns {'1-34' if attr == 'reactants' else '35-90'}", found=found)
-    tail = ("meth", ("sub", line, ("slice", ("binop", "Add", RL, PL), ("const", None), ("const", None))), "split", (), ())
+    if len(cols) != 2:
+        return
+    end = cols["products"][0][1]           # the numeric tail is the text after the product block
     pos = _positions(fl, set(KIDA_TAIL))
     for attr, (p, conv) in KIDA_TAIL.items():
         f = pos.get(attr)
@@ -501,13 +513,15 @@ def _kida(ctx, pkg):
         if v[0] != "item" or not isinstance(v[2], int) or not any(isinstance(x, tuple) and len(x) == 5 and x[0] == "meth" and x[2] == "split" for x in walk(v[1])):
             ctx.unrec("R5", f"KIDA:{attr}", (file, f.line), f"cannot see which token of the record self.{attr} is read from: {show(v)[:80]}")
             continue
-        ok = v[1] == tail and v[2] in (p, p - 13) and conv in wraps
-        ctx.check(ok, "R5", f"KIDA:{attr}", (file, f.line), f"self.{attr} = {conv}(token {p} of the text after column 90)",
-                  expected=f"{conv}(line[90:].split()[{p}])", found=show(simp(f.value))[:100])
-    dest = [a for a, v in _destructurings(fn, fl, 6) if v == tail]
-    others = [a for a, v in _destructurings(fn, fl, 6) if v != tail]
+        blk = block(_fold_ir(v[1]))
+        ok = blk == (end, None) and v[2] in (p, p - 13) and conv in wraps
+        ctx.check(ok, "R5", f"KIDA:{attr}", (file, f.line), f"self.{attr} = {conv}(token {p} of the text after column {end})",
+                  expected=f"{conv}(line[{end}:].split()[{p}])", found=show(_fold_ir(simp(f.value)))[:100])
+    ds = [(a, block(_fold_ir(v))) for a, v in _destructurings(fn, fl, 6)]
+    dest = [a for a, blk in ds if blk == (end, None)]
+    others = [a for a, blk in ds if blk != (end, None)]
     if not dest:
-        ctx.unrec("R3", "KIDA:arity", (file, others[0].lineno if others else fn.lineno), "no destructuring of the blank-separated text after column 90 into named fields")
+        ctx.unrec("R3", "KIDA:arity", (file, others[0].lineno if others else fn.lineno), f"no destructuring of the blank-separated text after column {end} into named fields")
     else:
         ctx.check(len(dest) == 1 and len(dest[0].targets[0].elts) == 13 and not any(isinstance(e, ast.Starred) for e in dest[0].targets[0].elts), "R3", "KIDA:arity", (file, fn.lineno),
                   "the numeric tail of a KIDA record has exactly 13 tokens", found=str(len(dest[0].targets[0].elts)) if dest else "none")
@@ -516,56 +530,16 @@ def _kida(ctx, pkg):
 # ------------------------------------------------------------------ Leeds
 
 def _leeds(ctx, pkg):
+    """The Leeds record by the VALUES the parser computes, whatever the way the line is cut (one loop over parallel label / width
+    lists advancing a cursor, a class-level (label, width) table with itertools.accumulate offsets, a dict of named clips read back,
+    a table-driven setattr for the float columns ...): on the folded parser (static loops over the literal tables unrolled, cursor
+    arithmetic on constants folded) every `self.<attr> = conv(line[a:b])` is compared with the published columns."""
     cls = "LEEDSReaction"
     file = pkg.cls(cls).file
     fn = pkg.method(cls, "_parse_string")
-    fl = Flow(fn, file)
-
-    def lit(x):
-        x = simp(x)
-        return [e[1] for e in x[1]] if x[0] == "list" and all(e[0] == "const" for e in x[1]) else None
-    # by role: the cursor is the one variable advanced (+=) inside a loop over zip(<labels>, <widths>)
-    inc = [f for f in fl.facts if f.kind == "augassign" and len(f.loops) == 1 and simp(f.loops[0].iter)[0] == "call" and simp(f.loops[0].iter)[1] == ("global", "zip")]
-    labels = widths = None
-    if inc:
-        z = simp(inc[0].loops[0].iter)
-        if len(z[2]) == 2:
-            labels, widths = lit(z[2][0]), lit(z[2][1])
-    # independent of the idiom: the columns each attribute is decoded from, computed by unrolling the loop over the (literal) tables
-    by_columns = _leeds_columns(ctx, pkg, fn, file)
-    if not inc or labels is None or widths is None:
-        # not the cursor idiom (one loop over zip(labels, widths) advancing a column cursor)
-        if not by_columns:
-            ctx.unrec("R4", "Leeds:layout", (file, fn.lineno), "the Leeds record is neither cut by the reviewed cursor idiom (for label, width in zip(..): clip = line[cursor:cursor+width]; "
-                                                              "cursor += width) nor by a loop over literal column tables that can be unrolled")
-        _leeds_prefix(ctx, fl, file)
-        return
-    ctx.check(labels == LEEDS_LABELS, "R3", "Leeds:labels", (file, fn.lineno), "the nine fields of a Leeds record, in file order", expected=str(LEEDS_LABELS), found=str(labels))
-    ctx.check(widths == LEEDS_WIDTHS and sum(widths or []) == 125, "R4", "Leeds:widths", (file, fn.lineno),
-              "column widths 5,30,50,8,9,10,5,5,3 (125 columns)", expected=str(LEEDS_WIDTHS), found=str(widths))
-    # cursor: clip = line[stidx : stidx + len]; stidx += len once per field, unconditionally; starts at 0
-    init = fl.assigns.get(inc[0].target, []) if inc else []
-    loopvar_ok = False
-    if len(inc) == 1 and len(inc[0].loops) == 1:
-        lp = inc[0].loops[0]
-        it = simp(lp.iter)
-        # guards of polarity False come from the `else: raise` of the label chain (unknown labels never reach the increment)
-        loopvar_ok = it[0] == "call" and it[1] == ("global", "zip") and len(it[2]) == 2 and \
-            not [g for g in inc[0].guards if g[1] is True and "react_string.strip()" not in show(simp(g[0]))]
-    ctx.check(len(inc) == 1 and inc[0].op == "Add" and loopvar_ok and len(init) >= 1 and simp(init[0][0]) == ("const", 0), "R4", "Leeds:cursor", (file, inc[0].line if inc else fn.lineno),
-              "the column cursor starts at 0 and advances by the field width exactly once per field", found=f"{len(inc)} increments, init {[show(x[0]) for x in init]}")
-    # label -> attribute
-    seen = {}
-    for f in fl.facts:
-        if f.kind == "attrstore" and f.extra.get("obj") == SELF and f.loops:
-            for g, pol in f.guards:
-                g = simp(g)
-                if pol and g[0] == "cmp" and g[1] == ("Eq",) and g[2][1][0] == "const" and g[2][0][0] == "elem":
-                    seen.setdefault(g[2][1][1], set()).add(f.target)
-    for lab, attr in LEEDS_ATTR.items():
-        got = seen.get(lab, set()) - {"reaction_type"}
-        ctx.check(got == {attr}, "R5", f"Leeds:{lab}->{attr}", (file, fn.lineno), f"field `{lab}` feeds self.{attr}", expected=attr, found=str(sorted(got)))
-    _leeds_prefix(ctx, fl, file)
+    folded = _parser(pkg, cls)
+    _leeds_columns(ctx, Flow(folded, file), fn, file)
+    _leeds_prefix(ctx, Flow(folded, file), file)
 
 
 def _leeds_prefix(ctx, fl, file):
@@ -579,91 +553,41 @@ def _leeds_prefix(ctx, fl, file):
     ctx.floor("R5", "Leeds species stores", n, 2)
 
 
-def _static_pairs(fn, loop):
-    """literal ((label, width), ...) a for-loop iterates over: a literal sequence of pairs, zip of two literal sequences, or locals
-    bound exactly once in the function to such literals; None otherwise"""
-    once = {}
-    for n in ast.walk(fn):
-        if isinstance(n, ast.Name) and isinstance(n.ctx, (ast.Store, ast.Del)):
-            once[n.id] = once.get(n.id, 0) + 1
-    bound = {a.targets[0].id: a.value for a in ast.walk(fn) if isinstance(a, ast.Assign) and len(a.targets) == 1 and isinstance(a.targets[0], ast.Name)
-             and once.get(a.targets[0].id) == 1 and a.lineno < loop.lineno}
-    mutated = {c.func.value.id for c in ast.walk(fn) if isinstance(c, ast.Call) and isinstance(c.func, ast.Attribute) and isinstance(c.func.value, ast.Name)
-               and c.func.attr in ("append", "extend", "insert", "remove", "pop", "clear", "sort", "reverse")}
-    mutated |= {t.value.id for a in ast.walk(fn) if isinstance(a, (ast.Assign, ast.AugAssign)) for t in (a.targets if isinstance(a, ast.Assign) else [a.target])
-                if isinstance(t, ast.Subscript) and isinstance(t.value, ast.Name)}
+def _fold_ir(v):
+    """integer arithmetic on constants folded and slices of slices composed (non-negative constant bounds):
+    s[a:b][c:d] is s[a+c : min(b, a+d)] -- `head = line[:90]; head[34:]` is line[34:90], `line[a:][:n]` is line[a:a+n]"""
+    if not isinstance(v, tuple) or not v:
+        return v
+    v = tuple(_fold_ir(x) if isinstance(x, tuple) else x for x in v)
+    if v[0] == "binop" and v[1] in ("Add", "Sub", "Mult") and v[2][0] == "const" and v[3][0] == "const" and isinstance(v[2][1], int) and isinstance(v[3][1], int) \
+            and not isinstance(v[2][1], bool) and not isinstance(v[3][1], bool):
+        return ("const", {"Add": v[2][1] + v[3][1], "Sub": v[2][1] - v[3][1], "Mult": v[2][1] * v[3][1]}[v[1]])
+    NONE = ("const", None)
 
-    def lit(e):
-        if isinstance(e, ast.Name) and e.id in bound and e.id not in mutated:
-            e = bound[e.id]
-        if isinstance(e, (ast.List, ast.Tuple)) and e.elts and not any(isinstance(x, ast.Starred) for x in e.elts):
-            return e
-        return None
-    it = loop.iter
-    if isinstance(it, ast.Call) and isinstance(it.func, ast.Name) and it.func.id == "zip" and len(it.args) == 2 and not it.keywords:
-        a, b = lit(it.args[0]), lit(it.args[1])
-        if a is None or b is None or len(a.elts) != len(b.elts):
-            return None
-        rows = [ast.Tuple(elts=[x, y], ctx=ast.Load()) for x, y in zip(a.elts, b.elts)]
-    else:
-        a = lit(it)
-        if a is None:
-            return None
-        rows = list(a.elts)
-    if not all(isinstance(r, ast.Tuple) and len(r.elts) == 2 and all(isinstance(x, ast.Constant) for x in r.elts) for r in rows):
-        return None
-    return ast.Tuple(elts=rows, ctx=ast.Load())
+    def bound(x):
+        """-> (True, int | None) for a constant non-negative / absent bound, else (False, None)"""
+        if x == NONE:
+            return True, None
+        if x[0] == "const" and isinstance(x[1], int) and not isinstance(x[1], bool) and x[1] >= 0:
+            return True, x[1]
+        return False, None
+    if v[0] == "sub" and v[2][0] == "slice" and v[2][3] == NONE and v[1][0] == "sub" and v[1][2][0] == "slice" and v[1][2][3] == NONE:
+        (oa, a_), (ob, b_), (oc, c_), (od, d_) = bound(v[1][2][1]), bound(v[1][2][2]), bound(v[2][1]), bound(v[2][2])
+        if oa and ob and oc and od:
+            lo = (a_ or 0) + (c_ or 0)
+            his = [h for h in (b_, None if d_ is None else (a_ or 0) + d_) if h is not None]
+            hi = min(his) if his else None
+            return ("sub", v[1][1], ("slice", ("const", lo) if lo or v[1][2][1] != NONE or v[2][1] != NONE else NONE, ("const", hi), NONE))
+    return v
 
 
-def _leeds_columns(ctx, pkg, fn, file):
-    """The record columns each attribute of a Leeds reaction is decoded from (DESIGN Appendix C), whatever the way the line is cut:
-    the loop over the literal (label, width) table(s) is unrolled (sa.normalize), the cursor arithmetic folded, a dict of named
-    clips read back, and every `self.<attr> = conv(line[a:b]...)` compared with the published columns.  -> True when the layout
-    could be decided this way (obligations R4 'Leeds:<attr>:columns' emitted), False when the function has no such loop."""
-    import copy
-    from ..normalize import _unroll_one
-    new = copy.deepcopy(fn)
-    done = 0
-
-    def rewrite(stmts):
-        nonlocal done
-        out = []
-        for st in stmts:
-            for fld in ("body", "orelse", "finalbody"):
-                b = getattr(st, fld, None)
-                if isinstance(b, list) and b and isinstance(b[0], ast.stmt):
-                    setattr(st, fld, rewrite(b))
-            if isinstance(st, ast.For) and isinstance(st.target, ast.Tuple) and len(st.target.elts) == 2:
-                seq = _static_pairs(new, st)
-                un = _unroll_one(st, seq) if seq is not None else None
-                if un is not None:
-                    for u in un:
-                        ast.fix_missing_locations(u)
-                    out.extend(un)
-                    done += 1
-                    continue
-            out.append(st)
-        return out
-    new.body = rewrite(new.body)
-    if done != 1:
-        return False
-    fl = Flow(new, file)
+def _leeds_columns(ctx, fl, fn, file):
+    """The record columns each attribute of a Leeds reaction is decoded from (DESIGN Appendix C): `fl` is the flow of the folded
+    parser; cursor arithmetic is folded, a dict of named clips read back, and every `self.<attr> = conv(line[a:b]...)` compared
+    with the published columns (obligations R4 'Leeds:<attr>:columns')."""
     LINE = ("param", "react_string")
 
-    def fold(v):
-        if not isinstance(v, tuple) or not v:
-            return v
-        v = tuple(fold(x) if isinstance(x, tuple) else x for x in v)
-        if v[0] == "binop" and v[1] in ("Add", "Sub", "Mult") and v[2][0] == "const" and v[3][0] == "const" and isinstance(v[2][1], int) and isinstance(v[3][1], int) \
-                and not isinstance(v[2][1], bool) and not isinstance(v[3][1], bool):
-            return ("const", {"Add": v[2][1] + v[3][1], "Sub": v[2][1] - v[3][1], "Mult": v[2][1] * v[3][1]}[v[1]])
-        # s[a:][:n] is s[a:a+n]
-        NONE = ("const", None)
-        if v[0] == "sub" and v[2][0] == "slice" and v[2][1] in (NONE, ("const", 0)) and v[2][3] == NONE and v[2][2][0] == "const" and isinstance(v[2][2][1], int) and v[2][2][1] >= 0 \
-                and v[1][0] == "sub" and v[1][2][0] == "slice" and v[1][2][2] == NONE and v[1][2][3] == NONE and v[1][2][1][0] == "const" and isinstance(v[1][2][1][1], int) and v[1][2][1][1] >= 0:
-            a_ = v[1][2][1][1]
-            return ("sub", v[1][1], ("slice", ("const", a_), ("const", a_ + v[2][2][1]), NONE))
-        return v
+    fold = _fold_ir
 
     def live(f):
         """False when a guard of the fact compares two different constants (an arm of the unrolled label chain that belongs to another label)"""
@@ -717,16 +641,17 @@ def _leeds_columns(ctx, pkg, fn, file):
             ctx.unrec("R4", key, (file, f.line), f"the slice bounds of self.{attr} are not constants after unrolling: {show(cut)[:100]}")
             continue
         n += 1
+        if attr == "rtype":
+            a += 1          # the first character of the type field is not part of the code (clip[1:], composed into the slice by _fold_ir)
         okc = got == (a, b)
-        # conversion: numeric attributes through int / float of the clip (the type code drops its first character)
+        # conversion: numeric attributes through int / float of the clip
         shape = True
         if attr in conv:
-            inner = ("sub", cut, ("slice", ("const", 1), ("const", None), ("const", None))) if attr == "rtype" else cut
-            shape = v == ("call", ("global", conv[attr]), (inner,), ())
+            shape = v == ("call", ("global", conv[attr]), (cut,), ())
         ctx.check(okc and shape, "R4", key, (file, f.line), f"self.{attr} is decoded from columns {a + 1}-{b} of the 125-column record" + ("" if shape else f" through {conv.get(attr)}()"),
-                  expected=f"{conv.get(attr, '')}(line[{a}:{b}]{'[1:]' if attr == 'rtype' else ''})", found=show(v)[:120])
-    ctx.floor("R4", "Leeds attributes with decided columns", n, 9, (file, fn.lineno))
-    return True
+                  expected=f"{conv.get(attr, '')}(line[{a}:{b}])", found=show(v)[:120])
+    if not any(o.rule == "R4" and o.key.startswith("Leeds:") and o.outcome in ("UNRECOGNISED", "VIOLATION") for o in ctx.obs):
+        ctx.floor("R4", "Leeds attributes with decided columns", n, 9, (file, fn.lineno))
 
 
 # ------------------------------------------------------------------ R6
@@ -743,7 +668,7 @@ def _r6(ctx, rm, pkg):
                       f"code {code!r} denotes reaction type {ref.get(code)}", expected=str(ref.get(code)), found=f"{table.get(code, ('absent',))[0]} = {got}")
     ctx.floor("R6", "code table entries", n, 44)
     # UCLCHEM: unmarked reactions default to two-body
-    fn = pkg.method("UCLCHEMReaction", "_parse_string")
+    fn = _parser(pkg, "UCLCHEMReaction")
     UCF = "naunet/reactions/uclchemreaction.py"
     fl = Flow(fn, UCF)
     st = [f for f in fl.facts if f.kind == "attrstore" and f.target == "reaction_type" and f.extra.get("obj") == SELF]
